@@ -426,7 +426,51 @@ func runC12(c *an.Ctx, p *an.Prog, thorough bool) {
 				}
 			})
 		}
-		c.Check(len(bad) == 0 && n > 0, "C12.2", fnKey(sa)+"|enqueue-guard", p.Pos(sa.Pos()), "enqueue only under ok ∧ upgradeable ∧ upgradeChan != nil, with the login's credentials and no response channel", strings.Join(uniqS(bad), "; "))
+		// converse: whenever ok ∧ upgradeable ∧ a queue is configured, the enqueue is attempted (no further condition
+		// may suppress it — otherwise some upgradeable hashes are never rewritten, however often the user logs in)
+		{
+			nAll := 0
+			an.EnumPaths(sa, nil, nil, func(s *an.PathState) {
+				var call *an.Term
+				for _, e := range s.Events {
+					if e.Kind == "call" && e.Callee == "(*"+storePkg+".Dir).Authenticate" {
+						call = e.Res
+					}
+				}
+				if call == nil {
+					return
+				}
+				okOk, okUp, okNN := false, false, false
+				for _, a := range s.Atoms {
+					if a.Op == "true" && a.A.K == extractOf(call, 0).K {
+						okOk = true
+					}
+					if a.Op == "true" && a.A.K == extractOf(call, 2).K {
+						okUp = true
+					}
+					if a.Op == "!=" && a.B != nil && a.B.IsConst("nil") && strings.Contains(a.A.K, "upgradeChan") {
+						okNN = true
+					}
+				}
+				if !(okOk && okUp && okNN) {
+					return
+				}
+				nAll++
+				attempted := false
+				for _, e := range s.Events {
+					if (e.Kind == "send" || e.Kind == "select") && len(e.Args) > 0 && strings.Contains(e.Args[0].K, "upgradeChan") {
+						attempted = true
+					}
+				}
+				if !attempted {
+					bad = append(bad, "a path with ok ∧ upgradeable ∧ upgradeChan != nil does not attempt the enqueue (extra condition suppresses upgrades): "+s.BlockPath()+" ["+s.FactsString()+"]")
+				}
+			})
+			if nAll == 0 {
+				bad = append(bad, "no path establishes ok ∧ upgradeable ∧ upgradeChan != nil")
+			}
+		}
+		c.Check(len(bad) == 0 && n > 0, "C12.2", fnKey(sa)+"|enqueue-guard", p.Pos(sa.Pos()), "enqueue exactly under ok ∧ upgradeable ∧ upgradeChan != nil (no weaker and no further condition), with the login's credentials and no response channel", strings.Join(uniqS(bad), "; "))
 	}
 	// NewStore mode switch and writers of upgradeChan
 	if ns := p.Func("/cmd/whawty-auth", "NewStore"); need(c, "C12.2", ns, "main.NewStore") {
